@@ -1779,6 +1779,9 @@ void hk_wait_return(struct vt_wait *w)
 	int i;
 
 	in_wait = 0;
+	if (getenv("CORE_DEBUG"))
+		mon_printf("NOTE dbg wait iter=%ld kind=%d timeout=%lld ret=%d err=%d injected=%d cb_prev=%ld faults=%llu natural=%d\n", iter, w->kind,
+			   (long long)w->timeout_ns, w->ret, w->err, w->injected, cb_this_iter, (unsigned long long)(vt_fault_fired() - case_inj0), eintr_natural);
 	if (w->injected) {
 		eintr_this_iter = 1;
 		S.eintr_seen++;
@@ -1971,6 +1974,15 @@ static void run_case(long id)
 		in_main = 0;
 		iteration_end_checks();
 		iter++;		/* what follows belongs to no iteration */
+		{
+			/* while iv_main is not running nothing is owed: the starvation / promptness clocks start again */
+			int q, b2;
+			for (q = 0; q < nreg[K_FD]; q++)
+				for (b2 = 0; b2 < 3; b2++)
+					objs[reglist[K_FD][q]].unserved_since[b2] = -1;
+			for (q = 0; q < nreg[K_TIMER]; q++)
+				objs[reglist[K_TIMER][q]].due_seen_iter = -1;
+		}
 		if (!quit_requested && shadow_count() != 0)
 			mon_viol("C07", "main-returned-early", g_method, "iv_main returned although %d object(s) are registered and iv_quit() was not called", shadow_count());
 		if (cb_depth)
